@@ -25,6 +25,7 @@ def extra(report, env):
     res.append(('frame.sinks-enumerated', len(res) > 50, '%d sinks' % len(res)))
     res.extend(frame.module_state(repo))
     res.extend(frame.mutable_defaults(repo))
+    res.extend(frame.process_state_writes(repo))
     known_clock = None
     for name, ok, detail in frame.clock_reads(repo):
         if not ok and name.endswith('parse_date.reads.dateutil-default'):
@@ -103,7 +104,8 @@ def extra(report, env):
     # --- host values are never mutated
     hosts = [[3, 1, 2], [[3, 1], [2, 9]], ['b', 'a', None], [5, [4, [3, [2]]]], [2.5, 1, 7, 7]]
     funcs = ['SUM', 'LARGE2', 'MEDIAN', 'MAX', 'MIN', 'AVERAGE', 'COUNT', 'CONCATENATE', 'AND', 'OR', 'INDEX2', 'MATCH2', 'TEXTJOIN2', 'PRODUCT', 'MODE',
-             'STDEV', 'VAR', 'AVEDEV', 'COUNTA', 'SUMIF2', 'COUNTIF2', 'plus', 'amp', 'cmp', 'XOR', 'SLOPE']
+             'STDEV', 'VAR', 'AVEDEV', 'COUNTA', 'SUMIF2', 'COUNTIF2', 'plus', 'amp', 'cmp', 'XOR', 'SLOPE', 'SUMIFS2', 'AVERAGEIFS2', 'MAXIFS2', 'TEXTJOIN3',
+             'times', 'SUMPRODUCT2']
     for h in hosts:
         for fn in funcs:
             q = e2e.new_parser()
@@ -111,7 +113,10 @@ def extra(report, env):
             q.set_variable('h', h)
             q.on('callRangeValue', lambda a, b, setter, _h=h: setter(_h))
             text = {'LARGE2': 'LARGE(h,1)', 'INDEX2': 'INDEX(h,1)', 'MATCH2': 'MATCH(1,h,0)', 'TEXTJOIN2': 'TEXTJOIN(",",TRUE,h)', 'SUMIF2': 'SUMIF(h,">1")',
-                    'COUNTIF2': 'COUNTIF(h,">1")', 'plus': 'h+1', 'amp': 'h&"a"', 'cmp': 'h=1'}.get(fn, '%s(h,A1:B2)' % fn)
+                    'COUNTIF2': 'COUNTIF(h,">1")', 'plus': 'h+1', 'amp': 'h&"a"', 'cmp': 'h=1', 'SUMIFS2': 'SUMIFS(h,ones,">0")',
+                    'AVERAGEIFS2': 'AVERAGEIFS(h,ones,">0")', 'MAXIFS2': 'MAXIFS(h,ones,">0")', 'TEXTJOIN3': 'TEXTJOIN("",FALSE,h,h)', 'times': 'h*h',
+                    'SUMPRODUCT2': 'SUMIFS(h,ones,">0",ones,"1")'}.get(fn, '%s(h,A1:B2)' % fn)
+            q.set_variable('ones', [1] * len(h))
             q.parse(text)
             cases += 1
             if h != before and len(fails) < 5:
@@ -149,7 +154,7 @@ def extra(report, env):
         fails.append({'formula': 'IFERROR(SUM(1/0),0) (repeated)', 'detail': 'traceback entries retained after successful evaluations: %r' % (sizes2,)})
     interference(report, env, 'C02')
     bounded(report, 'C02.histories', 'seeded histories of <= 6 parses (22 formulas incl. failing ones and raising callbacks) before a probe vs a fresh '
-            'parser; debug on/off for 22 formulas; 5 host lists x 26 consumers deep-compared; traceback growth over 3x1000 failing parses', cases, fails)
+            'parser; debug on/off for 22 formulas; 5 host lists x 32 consumers deep-compared; traceback growth over 3x1000 failing parses', cases, fails)
 
 
 def interference(report, env, prop):
